@@ -171,7 +171,7 @@ fn make_h(case: &TreeCase, n: usize, with_extras: bool) -> TreeSpec {
             });
         }
     }
-    TreeSpec { cap: hcap, nodes, extras, pairs_first: false }
+    TreeSpec { cap: hcap, nodes, extras, pairs_first: false, segment: 0 }
 }
 
 /// Mirror mode: g and the reachable part of h are the same chain of 2(k+1) vertices,
@@ -239,7 +239,7 @@ fn mirror(case: &TreeCase, k: u8, with_extras: bool) -> (Vec<Call>, TreeSpec, us
             extras.push(TExtra { id: len + 2, parent: None, label: None, data: Some(vec![2; 9]), points_to_root: None, read: case.extras[1].0 % 2 == 0 });
         }
     }
-    (calls, TreeSpec { cap: len + 4, nodes, extras, pairs_first: true }, 0)
+    (calls, TreeSpec { cap: len + 4, nodes, extras, pairs_first: true, segment: 0 }, 0)
 }
 
 /// Build the concrete calls: junk that is created and completely collected, then g.
@@ -804,7 +804,7 @@ impl Engine for TreeEnumEngine {
                                 .enumerate()
                                 .map(|(i, (p, l))| TNode { id: hs.len() - 1 - i, parent: *p, label: l.clone(), data: data_of((hmask >> i) & 1 == 1, i + 4, i % 2 == 1), read: false })
                                 .collect();
-                            let h = TreeSpec { cap: 8, nodes, extras: vec![], pairs_first: false };
+                            let h = TreeSpec { cap: 8, nodes, extras: vec![], pairs_first: false, segment: 0 };
                             let mut calls = base.clone();
                             calls.push(Call::Merge { h, left });
                             evals += 1;
@@ -843,5 +843,129 @@ impl Engine for TreeEnumEngine {
     }
     fn replay(&self, payload: &Value) -> Option<Failure> {
         TreeEngine { extras: false }.replay(payload)
+    }
+}
+
+// ------------------------------------------------------------------ merge-depth sweep
+
+/// Bounded-exhaustive complement of C11 and C12: chains of EVERY depth up to the bound
+/// (built in runs of 15 so that every group stays within 16 members, i.e. up to 14 groups),
+/// merged onto the same chain (or one that is 1..3 vertices shorter), with 0..3 unreachable
+/// extras on the right side.
+pub struct DepthSweep {
+    pub extras: bool,
+    pub shard: u64,
+    pub of: u64,
+    pub max: usize,
+}
+
+impl DepthSweep {
+    fn build(len: usize, shorter: usize, extras: usize) -> (Cfg, Vec<Call>, TreeSpec) {
+        let labs = [Lab::Alpha(0), Lab::Str("foo".into())];
+        let glen = len - shorter.min(len - 1);
+        let cfg = Cfg { n: 2, cap: len + 6 };
+        let mut calls: Vec<Call> = (0..glen).map(Call::Add).collect();
+        for pass in 0..2 {
+            for i in 1..glen {
+                if (pass == 0) == (i % 15 == 1) {
+                    calls.push(Call::Bind { a: i - 1, b: i, l: labs[i % 2].clone(), parsed: false });
+                }
+            }
+        }
+        for i in (0..glen).step_by(7) {
+            calls.push(Call::Put(i, vec![i as u8; 1 + (i % 3) * 5]));
+        }
+        let nodes: Vec<TNode> = (0..len)
+            .map(|i| TNode {
+                id: len - 1 - i,
+                parent: if i == 0 { None } else { Some(i - 1) },
+                label: if i == 0 { None } else { Some(labs[i % 2].clone()) },
+                data: if i % 5 == 2 || i + 1 == len { Some(vec![0x30 + (i % 64) as u8; 2 + (i % 2) * 9]) } else { None },
+                read: false,
+            })
+            .collect();
+        let ex = (0..extras).map(|k| TExtra { id: len + k, parent: None, label: None, data: if k % 2 == 0 { Some(vec![k as u8 + 1; 3]) } else { None }, points_to_root: None, read: false }).collect();
+        (cfg, calls, TreeSpec { cap: len + 6, nodes, extras: ex, pairs_first: false, segment: 15 })
+    }
+
+    /// (failure, the merge was executed and judged)
+    fn one(&self, len: usize, shorter: usize, extras: usize) -> (Option<Failure>, bool) {
+        let (cfg, mut calls, h) = Self::build(len, shorter, extras);
+        let (f, judged) = if self.extras {
+            TreeEngine::run_c12(cfg, &calls, &h, 0)
+        } else {
+            calls.push(Call::Merge { h, left: 0 });
+            let (f, _, (merges, _, _)) = TreeEngine::run_c11(cfg, &calls, len as u16);
+            (f, merges >= 1)
+        };
+        (
+            f.map(|mut f| {
+                f.detail = format!("chain of depth {len} merged onto a chain of {} vertices, {extras} unreachable extras: {}", len - shorter.min(len - 1), f.detail.chars().take(600).collect::<String>());
+                f
+            }),
+            judged,
+        )
+    }
+
+    fn points(&self) -> Vec<(usize, usize, usize)> {
+        let mut v = vec![];
+        for len in 1..=self.max {
+            for shorter in [0usize, 1, 3] {
+                for extras in if self.extras { 0..4usize } else { 0..1 } {
+                    v.push((len, shorter, extras));
+                }
+            }
+        }
+        v
+    }
+}
+
+impl Engine for DepthSweep {
+    type Case = u8;
+    fn name(&self) -> &'static str {
+        "merge-depth-sweep"
+    }
+    fn strategy(&self, _: Tier) -> BoxedStrategy<u8> {
+        Just(0u8).boxed()
+    }
+    fn run(&self, _: &u8) -> CaseReport {
+        let mut evals = 0u64;
+        let mut subs = vec![];
+        let mut failure = None;
+        let mut payload = None;
+        let mut skipped = 0u64;
+        for (i, (len, shorter, extras)) in self.points().into_iter().enumerate() {
+            if i as u64 % self.of != self.shard {
+                continue;
+            }
+            crate::campaign::touch();
+            let (f, judged) = self.one(len, shorter, extras);
+            if !judged && f.is_none() {
+                skipped += 1;
+                continue;
+            }
+            evals += 1;
+            if let Some(f) = f {
+                payload = Some(json!({"depth": len, "shorter": shorter, "extras": extras}));
+                failure = Some(f);
+                break;
+            }
+            subs.push((len as u64) << 16 | (shorter as u64) << 8 | extras as u64 | 0xDE97_0000_0000);
+        }
+        CaseReport {
+            payload,
+            failure,
+            evaluations: evals,
+            sub_hashes: subs,
+            counters: vec![("points_outside_the_limits_skipped", skipped)],
+            events: vec!["bounded-exhaustive: every chain depth up to the bound, left chain equal / 1 / 3 shorter, 0..3 unreachable extras (C12)"],
+            ..Default::default()
+        }
+    }
+    fn render(&self, _: &u8) -> Value {
+        json!({"depths": format!("1..={}", self.max), "left_chain": "same depth, 1 shorter, 3 shorter", "unreachable_extras": if self.extras { "0..=3" } else { "0" }, "this_worker": format!("every {}th point", self.of)})
+    }
+    fn replay(&self, payload: &Value) -> Option<Failure> {
+        self.one(payload["depth"].as_u64()? as usize, payload["shorter"].as_u64()? as usize, payload["extras"].as_u64()? as usize).0
     }
 }
